@@ -12,8 +12,9 @@
 From Coq Require Import NArith List String Bool.
 From Falco Require Import Model.Val Model.Assign.
 From Falco Require Import Base.TablesBase Model.ScopeMask Model.LintTables Model.LintOps Model.TablesDomain
-  Model.InterpAssign Proofs.ScopeMaskProofs Proofs.TablesProofs Proofs.InterpAssignProofs Proofs.Tables2Proofs.
+  Model.InterpAssign Model.InterpVars Proofs.ScopeMaskProofs Proofs.TablesProofs Proofs.InterpAssignProofs Proofs.Tables2Proofs Proofs.InterpVarsProofs.
 From Falco Require Import Gen.LintConsts Gen.LintVars Gen.LintDyn Gen.LintFuncs Gen.RefVars Gen.RefFuncs Gen.InterpFuncs.
+From Falco Require Import Gen.InterpVars.
 From Falco Require Import Gen.ObsVars Gen.ObsFuncs Gen.ObsStmts Gen.ObsOps Gen.ObsWide Gen.ObsCoerce Gen.ObsInferred Gen.KnownGaps.
 Import ListNotations.
 Local Open Scope N_scope.
@@ -218,6 +219,14 @@ Theorem C05_obs_ops_left_domain :
   map (fun r => match r with (op, l, lp, _, _) => (op, l, lp) end) obs_ops_left = opl_rows.
 Proof. exact obs_ops_left_domain. Qed.
 
+(* other spellings of a literal and a header sub-field as right operand (domain: op_rows x lit_variants) *)
+Theorem C05_op_variants_eq_base : forall op lty lint interp i vid t f,
+  In (op, lty, lint, interp) obs_op_variants -> In (i, vid, t, f) lit_variants ->
+  lint_op_model op lty t f = N.testbit lint i /\ interp_op_model op lty t f = N.testbit interp i.
+Proof. exact op_variants_eq_base. Qed.
+Theorem C05_obs_op_variants_domain : map obs_op_key obs_op_variants = op_rows.
+Proof. exact obs_op_variants_domain. Qed.
+
 (* ---- scopes obtained by the linter's CALL-GRAPH INFERENCE (no @scope annotation): the use in the innermost of
    1..3 un-annotated helpers called from every pair (thorough tier: also every triple, depth 2) of lifecycle
    subroutines.  Domain: inferred_rows (representatives of every accessor class / function scope mask in the quick
@@ -238,6 +247,23 @@ Theorem C05_lint_inferred3_eq_model : forall k n a d lint interp m,
   lint_use_model the_ctx k n a m = N.testbit lint m /\
   (N.testbit lint m = true -> N.testbit interp m = true \/ use_gap_covers k n a m = true).
 Proof. exact lint_inferred3_eq_model. Qed.
+
+(* ---- the simulator's variable dispatch is REGENERATED (Gen.InterpVars: case labels of `switch name`, dispatcher
+   functions, regular expressions, delegation to the all-scope base of interpreter/variable/*.go); the observed table
+   is the correspondence of that translation, and the inclusion holds between the two regenerated tables *)
+Theorem C05_interp_var_regexes_known : forall re pat, In (re, pat) interp_var_regexes -> In pat known_regexes.
+Proof. exact interp_var_regexes_known. Qed.
+
+Theorem C05_interp_vars_regen_eq_observed : forall t n op lint interp ctx p,
+  In (t, n, op, lint, interp, ctx) obs_vars -> In p positions45 ->
+  interp_var_has_mask n op (mask_at p) = N.testbit interp p \/ gap_covers "var-interp" n op p = true.
+Proof. exact interp_vars_regen_eq_observed. Qed.
+
+Theorem C05_lint_sub_interp_vars_regen : forall t n op p,
+  In (t, n, op) (var_rows obs_http_names) -> In p positions45 ->
+  lint_var_op the_ctx n op (lint_mode (mask_at p)) = true ->
+  interp_var_has_mask n op (mask_at p) = true \/ gap_covers "var-interp" n op p = true.
+Proof. exact lint_sub_interp_vars_regen. Qed.
 
 (* where both sides give a type to a read of the variable it is the same type *)
 Theorem C05_lint_types_eq_interp : forall n tys s t,
@@ -292,9 +318,14 @@ Print Assumptions C05_lint_sub_interp_coerce_models.
 Print Assumptions C05_lint_sub_interp_coerce_refuted.
 Print Assumptions C05_ops_left_models_eq_observed.
 Print Assumptions C05_obs_ops_left_domain.
+Print Assumptions C05_op_variants_eq_base.
+Print Assumptions C05_obs_op_variants_domain.
 Print Assumptions C05_obs_inferred_domain.
 Print Assumptions C05_lint_inferred_eq_model.
 Print Assumptions C05_lint_inferred3_eq_model.
+Print Assumptions C05_interp_var_regexes_known.
+Print Assumptions C05_interp_vars_regen_eq_observed.
+Print Assumptions C05_lint_sub_interp_vars_regen.
 Print Assumptions C05_lint_types_eq_interp.
 Print Assumptions C05_lint_sub_interp_vars_refuted.
 Print Assumptions C05_lint_sub_interp_calls_refuted.
